@@ -39,7 +39,7 @@ STUBS = ["timeinterval.dt and timeinterval._ATTRS rebound to symx.symdt (pure-Py
          "time.fromisoformat / datetime.strptime: real C parser on the code text, fields relabelled"]
 ASSUMPTIONS = ["the stub date/time classes agree with the real ones (differential self-test in the same run: label stub-selftest)"]
 EXPECT_LABELS = {'all': ['time-membership', 'date-membership', 'datetime-membership', 'sorted', 'idempotent', 'full-length',
-                         'seq-length-rejected', 'date-string', 'time-string', 'lang', 'malformed', 'weekdays', 'stub-selftest',
+                         'seq-length-rejected', 'date-string', 'time-string', 'datetime-string', 'lang', 'malformed', 'weekdays', 'stub-selftest',
                          'string-roundtrip']}
 EXPECT_NOTES = {'all': ['time-wrapping', 'time-equal-endpoints', 'date-wrapping', 'probe-at-endpoint']}
 FLOORS = {'quick': {'paths': 300, 'checks': 1000}, 'thorough': {'paths': 3000, 'checks': 10000}}
@@ -381,6 +381,38 @@ def scen_time_strings(env, shape):
             env.check('time-string-same-set', Iff_(p in iv, p in seqiv), info=lambda: s)
 
 
+def scen_datetime_strings(env, mo):
+    """traditional date-time strings: month name in every case / abbreviation, symbolic day, year, time"""
+    D, Y = env.int('D', 1, 28), env.int('Y', 2000, 2100)
+    H, Mi = env.int('H', 0, 23), env.int('Mi', 0, 59)
+    D2, H2 = env.int('D2', 1, 28), env.int('H2', 0, 23)
+    codes = {'41': D, '42': D2, '2041': Y, '11': H, '12': H2, '31': Mi}
+    full = MONTHS[mo]
+    abbr = env.pick(sorted({3, 4, len(full)}), 'abbr')
+    txt = full[:max(3, min(abbr, len(full)))]
+    case = env.choose(4, 'case')
+    name = [txt.lower(), txt.upper(), txt, txt[0].lower() + txt[1:].upper()][case]
+    layout = env.choose(4, 'layout')
+    e1 = [f'41 {name} 2041 11:31', f'{name} 41 2041 11:31', f'2041-{name}-41 11:31', f'11:31 41. {name}. 2041'][layout]
+    e2 = [f'42 {name} 2041 12:31', f'{name} 42 2041 12:31', f'2041-{name}-42 12:31', f'12:31 42. {name}. 2041'][layout]
+    sep = env.pick([' / ', ' - ', '/'], 'sep')
+    s = e1 + sep + e2
+    exp = [[[Y, mo, D, H, Mi, 0, 0], [Y, mo, D2, H2, Mi, 0, 0]]]
+    with Rebind(codes):
+        try:
+            iv = ti.DateTimeInterval(s)
+            got, err = iv.as_list(), None
+        except ValueError as e:
+            got, err = None, e
+        env.check('datetime-string', err is None and bool(env.holds(lists_eq(got, exp))), info=lambda: (s, got, err))
+        # also as a sequence of two strings
+        try:
+            got2 = ti.DateTimeInterval([[e1, e2]]).as_list()
+            env.check('datetime-string', bool(env.holds(lists_eq(got2, exp))), info=lambda: (e1, e2, got2))
+        except ValueError as e:
+            env.check('datetime-string', False, info=lambda: (e1, e2, e))
+
+
 ROUNDTRIP = [
     (ti.TimeInterval, '1:2 - 3:04:05, 23:59:59.5-0:0', None),
     (ti.TimeInterval, '10:00-10:30; 7:5:3,25 / 8:00;', None),
@@ -518,6 +550,8 @@ def shards(tier):
             out.append({'name': f'date strings {shape} sep={sep!r}', 'scenario': 'scen_date_strings',
                         'params': {'shape': shape, 'sep': sep,
                                    'months': [1, 5, 9, 12] if tier == 'quick' else list(range(1, 13))}, 'cost': 50})
+    for mo in range(1, 13):
+        out.append({'name': f'datetime strings month={mo}', 'scenario': 'scen_datetime_strings', 'params': {'mo': mo}})
     for shape in ('hm', 'hms', 'frac'):
         out.append({'name': f'time strings {shape}', 'scenario': 'scen_time_strings', 'params': {'shape': shape}})
     for name in SPEC:
